@@ -163,3 +163,58 @@ Definition start_item_b (T : table) : bool :=
 Definition complete_b (g : grammar) (T : table) : bool :=
   shape_b g T && first_closed_b g T && start_item_b T &&
   forallb (fun st => forallb (complete_item_b g T st) (s_items st)) (t_states T).
+
+(* ---- panic-freedom conditions (C15): every goto a reduction can ask for is
+   defined, no reduction by an augmented production -------------------------- *)
+Definition goto_ok_b (g : grammar) (st : state) : bool :=
+  forallb (fun it =>
+             if (i_pos it =? 0) && negb (is_aug_prod g (i_prod it)) then
+               match nth_error (s_gotos st) (lhs g (i_prod it) - g_nterm g) with
+               | Some (Some _) => true
+               | _ => false
+               end
+             else true) (s_items st).
+
+Definition no_aug_reduce_b (g : grammar) (st : state) : bool :=
+  forallb (fun acts => forallb (fun act => match act with
+                                           | Reduce p _ => negb (is_aug_prod g p)
+                                           | _ => true
+                                           end) acts) (s_actions st).
+
+Definition safe_b (g : grammar) (T : table) : bool :=
+  sound_b g T &&
+  forallb (fun st => goto_ok_b g st && no_aug_reduce_b g st) (t_states T).
+
+(* ---- termination of reductions (C15): for every lookahead the graph
+   "top state -> possible top state after the reduction the table prescribes"
+   (over-approximated through predecessor sets) has no path longer than the
+   number of states ------------------------------------------------------------ *)
+Definition preds (g : grammar) (T : table) (s : nat) : list nat :=
+  flat_map (fun '(t, st) =>
+              if existsb (fun '(_, s') => s' =? s) (trans_list (g_nterm g) st) then [t] else [])
+           (indexed (t_states T)).
+
+Fixpoint preds_n (g : grammar) (T : table) (n : nat) (ss : list nat) : list nat :=
+  match n with
+  | 0 => ss
+  | S k => preds_n g T k (nodup Nat.eq_dec (flat_map (preds g T) ss))
+  end.
+
+Definition red_succ (g : grammar) (T : table) (a s : nat) : list nat :=
+  match cell T s a with
+  | Reduce p len :: _ =>
+      flat_map (fun t => match goto T t (lhs g p - g_nterm g) with Some s' => [s'] | None => [] end)
+               (preds_n g T len [s])
+  | _ => []
+  end.
+
+Fixpoint red_iter (g : grammar) (T : table) (a : nat) (k : nat) (front : list nat) : list nat :=
+  match k with
+  | 0 => front
+  | S k' => red_iter g T a k' (nodup Nat.eq_dec (flat_map (red_succ g T a) front))
+  end.
+
+Definition reduce_acyclic_b (g : grammar) (T : table) : bool :=
+  let n := length (t_states T) in
+  forallb (fun a => match red_iter g T a (S n) (seq 0 n) with [] => true | _ => false end)
+          (seq 0 (g_nterm g)).
